@@ -80,6 +80,57 @@ theorem give_start_eq_take_start_built (H : Hier K) (G : GiveTables) (hG : G.dir
   · obtain ⟨t4, m4, o, c3, c⟩ := hs 0 (by omega)
     exact ⟨hGe ▸ C07g.genTables_good, c3, c, o, t4, by omega, fun _ => m4, hk 0 (by omega)⟩
 
+/-- the hierarchy `Build.hier` makes from level grids of the coarsening chain (Dirichlet inner boundary) is `BuiltBy`, and every
+    level carries the Dirichlet flag — no hypothesis on the input functions -/
+theorem setup_built (E : Cache.Env K) (grids : List (Cache.GridData K)) (cc cg : Bool) (tiny : K → Bool)
+    (nr nt : Nat) (maxLevels : Int) (L : Nat) (crit : Nat → Nat → Bool)
+    (hsel : chooseLevels nr nt maxLevels = .ok L) (hlen : grids.length = L)
+    (hchain : List.IsChain C03c.Nested grids)
+    (hshape : ∀ l (hl : l < grids.length), (grids[l]).g.nr = coarsenR l nr ∧ (grids[l]).g.nt = coarsenT l nt ∧
+      (grids[l]).g.nc = Split.autoNc (crit l) (coarsenR l nr)) :
+    BuiltBy (Build.hier E grids true cc cg tiny C04c.genTables) nr nt crit L ∧
+    ∀ l, l < L → (lvl (Build.hier E grids true cc cg tiny C04c.genTables) l).op.bc = true := by
+  have hL2 : 2 ≤ L := (chain_sizes hsel).1
+  obtain ⟨G0, Gs, rfl⟩ : ∃ G0 Gs, grids = G0 :: Gs := by
+    cases grids with
+    | nil => simp only [List.length_nil] at hlen; omega
+    | cons a b => exact ⟨a, b, rfl⟩
+  have hlev := C10i.hier_eq_fresh_levels E cc cg true G0 Gs hchain tiny C04c.genTables
+  have hl : ∀ l (hl : l < (G0 :: Gs).length), lvl (Build.hier E (G0 :: Gs) true cc cg tiny C04c.genTables) l
+      = ⟨Build.opOf E (G0 :: Gs)[l] true (Cache.fresh E (G0 :: Gs)[l] cc cg), (G0 :: Gs)[l].g.nc⟩ :=
+    fun l hl => Concrete15.lvl_map _ (G0 :: Gs) _ hlev l hl
+  refine ⟨⟨fun l h => ?_, fun l h => ?_, fun l h => ?_⟩, fun l h => ?_⟩
+  · rw [hl l (by omega)]; exact (hshape l (by omega)).1
+  · rw [hl l (by omega)]; exact (hshape l (by omega)).2.1
+  · rw [hl l (by omega)]; exact (hshape l (by omega)).2.2
+  · rw [hl l (by omega)]; rfl
+
+/-- **end to end, totality**: inputs → hierarchy → the plain and the implicitly extrapolated concrete cycle return a vector of
+    `nr · nt` entries for EVERY iterate of that size and every right-hand side — nothing is assumed about the input functions
+    (no ellipticity, no sign): the exit branch of the sparse LU and out-of-bounds stores are excluded by the shapes alone, the
+    `tiny` test on the coarse pivots (known finding F7) stays a hypothesis -/
+theorem concrete_cycles_total_setup (E : Cache.Env K) (grids : List (Cache.GridData K)) (cc cg : Bool) (tiny : K → Bool)
+    (nr nt : Nat) (maxLevels : Int) (L : Nat) (crit : Nat → Nat → Bool)
+    (hsel : chooseLevels nr nt maxLevels = .ok L) (hlen : grids.length = L)
+    (hchain : List.IsChain C03c.Nested grids)
+    (hshape : ∀ l (hl : l < grids.length), (grids[l]).g.nr = coarsenR l nr ∧ (grids[l]).g.nt = coarsenT l nt ∧
+      (grids[l]).g.nc = Split.autoNc (crit l) (coarsenR l nr))
+    (k : Kind) (nu1 nu2 : Nat) (fgs : Bool) (u f f1 : Array K) (ht1 : tiny 1 = false)
+    (M : SparseLU.CSR K)
+    (hM : DirectCode.assemble C04c.genTables (lvl (Build.hier E grids true cc cg tiny C04c.genTables) (L - 1)).op = some M)
+    (ht : ∀ r, r < M.rows → tiny (SparseLU.den ((SparseLU.factorRows M).2.getD r []) r) = false)
+    (hu : u.size = coarsenR 0 nr * coarsenT 0 nt)
+    (m : Mem (Option (Array K))) (hm : m (0, Buf.sol) = some u) (hr : m (0, Buf.rhs) = some f) (hr1 : m (1, Buf.rhs) = some f1) :
+    (∃ y, cycle (Build.hier E grids true cc cg tiny C04c.genTables) ⟨L, nu1, nu2⟩ k false fgs m (0, Buf.sol) = some y ∧
+      y.size = coarsenR 0 nr * coarsenT 0 nt) ∧
+    (∃ y, cycle (Build.hier E grids true cc cg tiny C04c.genTables) ⟨L, nu1, nu2⟩ k true fgs m (0, Buf.sol) = some y ∧
+      y.size = coarsenR 0 nr * coarsenT 0 nt) := by
+  obtain ⟨hb, hbc⟩ := setup_built E grids cc cg tiny nr nt maxLevels L crit hsel hlen hchain hshape
+  exact ⟨concrete_cycle_total_built _ nr nt maxLevels L crit hsel hb k nu1 nu2 fgs u f (fun l hl => hbc l (by omega)) ht1 M hM ht
+      hu m hm hr,
+    concrete_excycle_total_built _ nr nt maxLevels L crit hsel hb k nu1 nu2 fgs u f f1 (fun l hl => hbc l (by omega)) ht1 M hM ht
+      hu m hm hr hr1⟩
+
 end AnyField
 
 section Ordered
@@ -288,5 +339,23 @@ example (k : Kind) (nu1 nu2 : Nat) (fgs : Bool) (m : Mem (Option (Array ℚ)))
     unfold exF1
     rw [fld_ofField_grid 5 8 _ i j hi hj]
     exact sub_self _
+
+/-- `concrete_cycles_total_setup` applies on the hierarchy built from `C10i.exEnv` and the chain 9 × 16 → 5 × 8: EVERY iterate of the
+    right size, EVERY pair of right-hand sides, any kind, any smoothing counts, either level-0 smoother -/
+example (k : Kind) (nu1 nu2 : Nat) (fgs : Bool) (u f f1 : Array ℚ) (hu : u.size = 9 * 16) (m : Mem (Option (Array ℚ)))
+    (hm : m (0, Buf.sol) = some u) (hr : m (0, Buf.rhs) = some f) (hr1 : m (1, Buf.rhs) = some f1) :
+    (∃ y, cycle C10i.exH ⟨2, nu1, nu2⟩ k false fgs m (0, Buf.sol) = some y ∧ y.size = 9 * 16) ∧
+    (∃ y, cycle C10i.exH ⟨2, nu1, nu2⟩ k true fgs m (0, Buf.sol) = some y ∧ y.size = 9 * 16) := by
+  obtain ⟨M, hM⟩ := C04c.assemble_in_bounds
+    (Build.opOf C10i.exEnv C10i.exG1 true (Cache.fresh C10i.exEnv C10i.exG1 true true)) (by decide)
+  have ht : ∀ r, r < M.rows → C06c.exTiny (SparseLU.den ((SparseLU.factorRows M).2.getD r []) r) = false := by
+    intro r hr'
+    have h := C10i.ex_pivots
+    rw [hM] at h
+    simp only [Option.all_some, List.all_eq_true, List.mem_range, Bool.not_eq_true'] at h
+    exact h r hr'
+  exact concrete_cycles_total_setup C10i.exEnv [C10i.exG0, C10i.exG1] true true C06c.exTiny 9 16 (-1) 2 C10i.exCrit rfl rfl
+    C10i.ex_chain C10i.ex_shape k nu1 nu2 fgs u f f1 (by decide +kernel) M
+    (by rw [← hM]; exact congrArg _ C10i.exH_lvl1) ht hu m hm hr hr1
 
 end C10j
